@@ -14,4 +14,6 @@ _whole.install(globals(), "C07",
                note="The seed clauses and the id strings are decided by the monitor on real rounds (the machine carries candidate fitness keys, not genomes).",
                technique="Coq invariant (well-formed forest) over all event streams + vm_compute trace replay against the real package",
                quick=240, thorough=6000, nontrivial=nontrivial,
-               forces=[(2, None), (2, {"height": 3}), (1, {"height": 3, "objective_kind": "plateau", "engines": ["SEA", "SEA", "DE"]})])
+               forces=[(2, None), (2, {"height": 3}), (1, {"height": 3, "objective_kind": "plateau", "engines": ["SEA", "SEA", "DE"]}),
+                       (1, {"height": 2, "narrowing_boxes": True, "wrappers": "none", "box_style": "sym", "objective_kind": "funnel", "engines": ["SEA", "SEA"], "dim": 2, "levels_patch": [{}, {"sample_std": 3.0}]}),
+                       (1, {"height": 3, "narrowing_boxes": True, "wrappers": "none", "box_style": "sym", "engines": ["DE", "SEA", "DE"], "dim": 2, "levels_patch": [{}, {"sample_std": 3.0}, {"sample_std": 3.0}]})])
